@@ -47,7 +47,7 @@ def rnd_pt(rng, sc=1e3):
 def gen_arc(rng, i):
     """one arc from the families of the quantifier"""
     fam = rng.choice(['ample', 'ample', 'too_small', 'too_small', 'exact_fit', 'eccentric',
-                      'near_snap', 'axis', 'int', 'tiny_chord'])
+                      'near_snap', 'axis', 'int', 'tiny_chord', 'on_ellipse'])
     rot = rng.choice(ROTS + [rng.uniform(-720, 720), rng.uniform(0, 360), rng.uniform(-5, 5)])
     large, sweep = FLAGS[i % 4]
     neg = rng.random() < 0.25
@@ -100,6 +100,19 @@ def gen_arc(rng, i):
         elif fam == 'axis' and rng.random() < 0.5:
             f = rng.choice([1e-3, 0.5, 1.0, 1.0])
             rx, ry = rx * f, ry * f
+        r = complex(rx, ry)
+    elif fam == 'on_ellipse':
+        # start / end taken on a given ellipse (ample radii); start often at or next to an
+        # axis extreme, where acos is ill-conditioned
+        rx, ry = rng.uniform(1, 100), rng.uniform(1, 100)
+        ctr = rnd_pt(rng, 100)
+        phi = math.radians(rot)
+        rm = complex(math.cos(phi), math.sin(phi))
+        th0 = rng.choice([0.0, math.pi, 1e-9, -1e-9, 1e-8, 3e-8, 1e-7, math.pi - 1e-8, math.pi / 2,
+                          rng.uniform(-3, 3)])
+        b = rng.uniform(0.3, 2.8) * rng.choice([1, -1])
+        s = ctr + rm * complex(rx * math.cos(th0), ry * math.sin(th0))
+        e = ctr + rm * complex(rx * math.cos(th0 + b), ry * math.sin(th0 + b))
         r = complex(rx, ry)
     else:  # int
         s = complex(rng.randint(-20, 20), rng.randint(-20, 20))
@@ -166,6 +179,10 @@ Definition ok (c : casety) : nat :=
   let radical := arc_radical N T radicand in
   let u1 := arc_u1_of N T start radius rot large sweep end_ in
   let u2 := arc_u2_of N T start radius rot large sweep end_ in
+  (* the sign test on u1.imag is within rounding while |u1| < 1 (only possible when the
+     snap fired on a positive radicand: theta = +-acos(u1.real) is then discontinuous) *)
+  if bf_leb (babs (snd u1)) (bf_of 1 (-40)) &&
+     bf_ltb (bf_of 1 (-60)) (sub N (bz 1) (babs (fst u1))) then 91 else
   (* radical = 0: det_uv is exactly 0 (u2 = -u1) in binary64 and in R, but not under
      the directed rounding of the bigfloat instance; the value of delta is then
      given by theorem C04_delta_cases *)
@@ -197,13 +214,23 @@ Definition ok (c : casety) : nat :=
      (all2 (fun o m => all2 (bcclose (add N (tol_pt (bz 1)) (tol_pt (bz 1)))) o (c4list m))
            cub (arc_as_cubic_curves N T Pm 2), 7);
      (all2 (fun o m => all2 (bcclose (add N (tol_pt (bz 1)) (tol_pt (bz 1)))) o (q3list m))
-           quad (arc_as_quad_curves N T Pm 2), 8)
+           quad (arc_as_quad_curves N T Pm 2), 8);
+     (* C04_on_ellipse evaluated on the implementation's own outputs: every observed
+        point(t) is on the ellipse with the OBSERVED centre and radii (rotation matrix
+        recomputed at 120 bits) *)
+     (let Pobs := mkArcP start o_radius rot large sweep end_ o_center o_theta o_delta (a_phi P) (a_rot P) in
+      let rmin := bmin (babs (fst o_radius)) (babs (snd o_radius)) in
+      let tol_e := mul N e9 (bmax (bz 1) (div N S rmin)) in
+      forallb (fun s => let '(_, o_pt, _) := s in
+                 bclose tol_e (cnorm2 N (arc_u1transform N Pobs o_pt)) (bz 1)) samples, 9)
    ].
 '''
 
 OBS_NAMES = {1: 'stored radius', 2: 'center', 3: 'theta', 4: 'delta', 5: 'point(t)',
              6: 'derivative(t,n), n=1..5', 7: 'as_cubic_curves(2) control points',
-             8: 'as_quad_curves(2) control points', 90: 'undecided (isclose threshold within rounding)'}
+             8: 'as_quad_curves(2) control points', 90: 'undecided (isclose threshold within rounding)',
+             9: 'on-ellipse residual of the observed points w.r.t. the observed centre/radii',
+             91: 'undecided (sign of u1.imag within rounding inside the snapped region)'}
 
 
 def observe(arc_in, ts):
@@ -292,10 +319,20 @@ def holds_impl(arc_in, a, o, ts):
     if not err <= 1e-9 * scale:
         # classify: snapped region / acos conditioning at an axis extreme / other
         u1x = float((ex['x1']) / ex['rx'])
-        if 1e-13 < radicand <= 1.0000001e-8:
+        if 0 < radicand <= 1e-13:
+            key = 'snap-endpoint-error-tiny-radicand'
+            why = ('radicand = %.3g > 0 (rounding level) is snapped to 0 while start/end sit at an axis extreme of '
+                   'the ellipse, where the centre moves like sqrt(radicand)' % radicand)
+        elif 1e-13 < radicand <= 1.0000001e-8:
             key = 'snap-endpoint-error'
             why = ('0 < radicand = %.3g <= 1e-8 is snapped to 0 by np.isclose: the centre is put at the chord '
                    'midpoint, point(0)/point(1) miss start/end' % radicand)
+        elif min(abs(math.sin(math.radians(o['theta']))),
+                 abs(math.sin(math.radians(o['theta'] + o['delta'])))) < 1e-5:
+            key = 'endpoint-acos-conditioning'
+            why = ('start or end sits within 1e-5 rad of an axis extreme of the ellipse (theta = %r, delta = %r): '
+                   'theta/delta come from acos of a value within rounding of +-1, which loses half the digits'
+                   % (o['theta'], o['delta']))
         else:
             key = 'endpoint-error'
             why = 'radicand = %.3g' % radicand
@@ -419,8 +456,8 @@ def run(rep, tier, seed, replay=None):
         for er in errors:
             rep.violation('correspondence case file failed to evaluate', {'kind': 'cases', 'error': er},
                           found_input=False, key='cases-error')
-        undecided = [i for i, c in fails if c == 90]
-        real = [(i, c) for i, c in fails if c != 90]
+        undecided = [i for i, c in fails if c in (90, 91)]
+        real = [(i, c) for i, c in fails if c not in (90, 91)]
         seen_codes = {}
         for idx, code in real:
             arc_in, ts, o = meta[idx]
@@ -435,7 +472,7 @@ def run(rep, tier, seed, replay=None):
                                         'theta': o['theta'], 'delta': o['delta']},
                            'how': './check C04 --replay <this file>'},
                           key='corr-%d' % code)
-        ncmp = 4 + 9 + 45 + 8 + 6
+        ncmp = 4 + 9 + 45 + 8 + 6 + 9
         rep.cov['evaluations'] = (len(cases) - len(undecided)) * ncmp
         rep.cov['traces_validated_against_impl'] = len(cases) - len(undecided)
         rep.cov['skipped_undecided'] = len(undecided)
